@@ -9,7 +9,11 @@ Correspondence (implementation vs extracted Coq model, same input):
     variation (NUMBER vs every RK form vs MULRK grouping, DIMENSIONS variants, ignorable
     records, 8/16-bit strings, formula cached values + STRING, SHRFMLA / ARRAY / TABLE / other
     ignored records between FORMULA and STRING, STRING continued in CONTINUE records, INDEX / ROW /
-    DBCELL / BLANK / MULBLANK around the row blocks, both DIMENSIONS widths), the model reading the
+    DBCELL / BLANK / MULBLANK around the row blocks, both DIMENSIONS widths, MERGECELLS records, and
+    substreams NESTED in the sheet - xlsgen.chart_sub: the chart substream of an embedded chart object
+    with its series cache ON positions of the sheet's own cells, FORMULA / STRING / MERGECELLS / CONTINUE
+    records and deeper BOF ... EOF pairs inside, behind the cell table or anywhere between the cell
+    records, several per sheet), the model reading the
     very same substream bytes; the same substreams through the RecordIter hook; plus malformed
     substreams (truncation, unsorted rows, bad DIMENSIONS, stray / missing STRING records).
   * shared strings end to end (run_sst_files, corpus sst-*): workbooks whose SST spills into CONTINUE
@@ -524,9 +528,15 @@ def item_text(c):
         return "O %d %s" % (0x0201, struct.pack("<HHH", c["r"], c["c"], c.get("xf", 0)).hex())
     if k == "raw":
         return "O %d %s" % (c["typ"], hx(c["body"]))
+    if k == "sub":
+        return "U %s %s" % (hx(c["bof"]), "|".join(":".join(["%d" % t, hx(b)] + [bytes(x).hex() for x in conts])
+                                                  for t, b, conts in c["recs"]) or "-")
+    if k == "merge":
+        return "G %s" % ("/".join("%d,%d,%d,%d" % tuple(r) for r in c["regs"]) or "-")
     raise ValueError(k)
 
-IGNORABLE = [0x0208, 0x023E, 0x001D, 0x00D7, 0x0055, 0x7FFF, 0x0809, 0x00FC, 0x013D]
+# (a BOF 0x0809 is not among them: inside a sheet it opens a nested substream, item kind "sub")
+IGNORABLE = [0x0208, 0x023E, 0x001D, 0x00D7, 0x0055, 0x7FFF, 0x00FC, 0x013D, 0x00EC, 0x005D, 0x01B6]
 
 def gen_logical(rng, env, small=False):
     """a random logical sheet: {(r, c): logical value}; values are
@@ -687,6 +697,30 @@ def choose_layout(rng, env, sheet, all_number=False, cont=True):
     if row_blocks and block:
         out.append({"k": "raw", "typ": 0x00D7, "body": struct.pack("<I", rng.getrandbits(16)) +
                     b"".join(struct.pack("<H", rng.getrandbits(12)) for _ in range(block))})
+    # nested substreams ([MS-XLS] 2.1.7.20.5 OBJECTS: one chart substream per embedded chart object, its
+    # series cache addressed like cells of the sheet).  Mostly where Excel puts them - MsoDrawing, OBJ,
+    # BOF ... EOF behind the cell table, MERGECELLS and more records behind -, sometimes anywhere between
+    # the cell records, sometimes several; the cache records collide with cells of the sheet
+    k = rng.random()
+    if k < 0.35:
+        ps = sorted(sheet)
+        for _ in range(rng.choice([1, 1, 1, 2, 3])):
+            sub = xlsgen.chart_sub(rng, ps)
+            if rng.random() < 0.7:
+                out += [{"k": "raw", "typ": 0x00EC, "body": bytes(rng.getrandbits(8) for _ in range(8))},
+                        {"k": "raw", "typ": 0x005D, "body": bytes(26)}, sub]
+            else:
+                out.insert(rng.randrange(len(out) + 1), sub)
+    if rng.random() < 0.25:
+        ps = sorted(sheet) or [(0, 0)]
+        regs = []
+        for _ in range(rng.choice([0, 1, 1, 2, 5])):
+            r0, c0 = rng.choice(ps)
+            regs.append((r0, min(r0 + rng.randrange(3), 65535), c0, min(c0 + rng.randrange(3), 255)))
+        at = len(out) if rng.random() < 0.8 else rng.randrange(len(out) + 1)
+        out.insert(at, {"k": "merge", "regs": regs})
+        if rng.random() < 0.5:
+            out.append({"k": "raw", "typ": 0x023E, "body": bytes(18)})      # WINDOW2 after the objects
     return out
 
 def logical_expected(sheet, env):
@@ -966,7 +1000,8 @@ def run_files(ctx, n_files, tag, make=None):
             dspec, ditem = dims_choice(rng, cells)
             name = "S%d" % si
             sh = {"name": name, "cells": cells, "dimensions": dspec}
-            if rng.random() < 0.2:
+            if rng.random() < 0.05:
+                # MERGECELLS written by xlsgen's own "merges" key: such a sheet goes to the model as bytes
                 ps = sorted(logical)
                 if ps:
                     sh["merges"] = [(ps[0][0], min(ps[0][0] + 1, 65535), ps[0][1], min(ps[0][1] + 1, 255))]
@@ -993,8 +1028,8 @@ def run_files(ctx, n_files, tag, make=None):
         fm, d, st = env_args(env)
         for si, (name, logical, cells, dspec, ditem, merges) in enumerate(descr):
             sub = stream[offs[si]:]
-            # the items of the Coq layout: DIMENSIONS (if written), the cells, MERGECELLS as an
-            # ignorable record is not in the model's "other" set -> merges are kept out of enc cases
+            # the items of the Coq layout: DIMENSIONS (if written), then the cells, ignorable records,
+            # nested substreams ("sub") and MERGECELLS records ("merge") in the order of the stream
             items = []
             if dspec == "exact":
                 ps = [p for c in cells for p in xlsgen.cell_positions(c) if c["k"] != "blank"]
@@ -1028,6 +1063,17 @@ def run_files(ctx, n_files, tag, make=None):
             ctx.count("file:" + c["k"])
             if c["k"] == "raw":
                 ctx.count("file:raw:0x%04x" % c["typ"] if c["typ"] in (0x0208, 0x00D7, 0x020B, 0x00BE) else "file:raw:other")
+            if c["k"] == "sub":
+                pos = set(logical)
+                hit = [t for t, b, _ in c["recs"] if t in (0x0203, 0x0204, 0x0205, 0x027E, 0x00FD, 0x0006) and len(b) >= 4
+                       and struct.unpack("<HH", b[:4]) in pos]
+                ctx.count("sub:with-colliding-cell-record" if hit else "sub:without-collision")
+                ctx.count("sub:records", len(c["recs"]))
+                if any(t == 0x0809 for t, _, _ in c["recs"]): ctx.count("sub:nested-deeper")
+                if any(conts for _, _, conts in c["recs"]): ctx.count("sub:with-continue")
+                if any(t in (0x00E5, 0x0006, 0x0207, 0x04BC) for t, _, _ in c["recs"]): ctx.count("sub:with-formula-or-mergecells")
+                if cells.index(c) < max([n2 for n2, c2 in enumerate(cells) if xlsgen.cell_positions(c2)] + [-1]):
+                    ctx.count("sub:before-later-cells")
             if c["k"] == "formula":
                 res = "string" if c["cached"][0] == "str" else "value"
                 ctx.count("layout:formula-%s:%s" % (res, "between-" + c["_between"] if c.get("between") else "adjacent"))
@@ -1177,7 +1223,8 @@ def run_malformed_files(ctx, n, tag):
         for c in cells:
             recs += xlsgen.cell_records(c)
         kind = rng.choice(["truncate", "unsorted", "dims", "continue", "noeof", "garbage", "mergecells", "dup", "formula-short",
-                           "string-absent", "stray-string", "string-after-two-formulas"])
+                           "string-absent", "stray-string", "string-after-two-formulas",
+                           "nest-open", "nest-open", "nest-extra-eof", "nest-bof-continue"])
         pre = []
         if kind == "unsorted" and len(recs) > 1:
             rng.shuffle(recs)
@@ -1218,6 +1265,18 @@ def run_malformed_files(ctx, n, tag):
             recs[pos:pos] = [(0x0207, xlsgen.xl_unicode(rand_units(rng, 5, False), False))]
             if rng.random() < 0.3:
                 recs[pos + 1:pos + 1] = [(0x003C, bytes([0, 0x62]))]
+        elif kind in ("nest-open", "nest-extra-eof", "nest-bof-continue"):
+            # unbalanced nesting: a nested BOF that is never closed (the rest of the sheet is inside it), a
+            # nested substream closed twice (the second EOF ends the sheet), a BOF followed by CONTINUE
+            sub = xlsgen.cell_records(xlsgen.chart_sub(rng, sorted(logical)))
+            pos = rng.randrange(len(recs) + 1)
+            if kind == "nest-open":
+                sub = sub[:-1] if rng.random() < 0.7 else [r for r in sub if r[0] != 0x0A]
+            elif kind == "nest-extra-eof":
+                sub = sub + [(0x0A, b"")]
+            else:
+                sub = [sub[0], (0x3C, bytes([1, 2, 3]))] + sub[1:]
+            recs[pos:pos] = sub
         elif kind == "formula-short":
             # below 20 bytes: Err.  20 or 21 bytes reach parse_formula with fewer than the two bytes
             # of cce: an Err there since the C06 hardening (it panicked), turned into the formula text;
@@ -1300,6 +1359,41 @@ CORPUS_FILES = [
     # the same where the cut is forced: =REPT("x",9000), 8220 characters fill the STRING record
     ("string-continue-long", [{"k": "formula", "r": 0, "c": 0, "cached": ("str", [0x78] * 8220, False), "cont": [([0x78] * 780, False)]},
                               {"k": "number", "r": 1, "c": 0, "bits": f64_bits(9000.0)}]),
+    # the former defect XLS-2 (notes/AUDIT2.md 3.2; repaired by "fix: records of a chart substream nested in an xls
+    # worksheet ..."): a worksheet with an embedded chart.  The chart substream's series cache is addressed (point,
+    # series) = like A1, A2 of the sheet; MERGECELLS and a later cell follow the chart
+    ("embedded-chart", [
+        {"k": "label", "r": 0, "c": 0, "units": xlsgen.units_of("Name"), "wide": False},
+        {"k": "label", "r": 0, "c": 1, "units": xlsgen.units_of("Val"), "wide": False},
+        {"k": "label", "r": 1, "c": 0, "units": [0x61], "wide": False}, {"k": "number", "r": 1, "c": 1, "bits": f64_bits(10.0)},
+        {"k": "label", "r": 2, "c": 0, "units": [0x62], "wide": False}, {"k": "number", "r": 2, "c": 1, "bits": f64_bits(20.0)},
+        {"k": "raw", "typ": 0x00EC, "body": bytes(8)}, {"k": "raw", "typ": 0x005D, "body": bytes(26)},
+        {"k": "sub", "bof": xlsgen.bof_body(0x0020), "recs": [
+            (0x1001, struct.pack("<H", 0), []), (0x1002, struct.pack("<iiii", 0, 0, 100, 100), []), (0x1033, b"", []), (0x1034, b"", []),
+            (0x0200, struct.pack("<IIHHH", 0, 2, 0, 2, 0), []), (0x1065, struct.pack("<H", 1), []),
+            (0x0203, struct.pack("<HHHd", 0, 0, 0, 10.0), []), (0x0203, struct.pack("<HHHd", 1, 0, 0, 20.0), []),
+            (0x1065, struct.pack("<H", 2), []),
+            (0x0204, struct.pack("<HHH", 0, 0, 0) + xlsgen.xl_unicode([0x61], False), []),
+            (0x0204, struct.pack("<HHH", 1, 0, 0) + xlsgen.xl_unicode([0x62], False), []),
+            (0x1065, struct.pack("<H", 3), [])]},
+        {"k": "raw", "typ": 0x023E, "body": struct.pack("<HHHHIHHI", 0x06B6, 0, 0, 64, 0, 0, 0, 0)},
+        {"k": "merge", "regs": [(4, 5, 0, 1)]},
+        {"k": "bool", "r": 3, "c": 1, "v": True}]),
+    # a second chart on the same sheet, the first one holding a further BOF ... EOF pair, FORMULA + STRING, MERGECELLS
+    # and a record with CONTINUE records; a cell between the two charts
+    ("two-charts-nested", [
+        {"k": "number", "r": 0, "c": 0, "bits": f64_bits(1.0)},
+        {"k": "sub", "bof": xlsgen.bof_body(0x0020), "recs": [
+            (0x0203, struct.pack("<HHHd", 0, 0, 0, 99.0), []),
+            (0x0809, xlsgen.bof_body(0x0020), [bytes([7])]), (0x027E, struct.pack("<HHHI", 0, 0, 0, rk_int(5)), []), (0x000A, b"", []),
+            (0x0006, struct.pack("<HHH", 0, 0, 0) + xlsgen.formula_value(("str", [0x78], False)) + struct.pack("<HI", 0, 0) + struct.pack("<H", 3) + xlsgen.PTG_INT_1, []),
+            (0x0207, xlsgen.xl_unicode([0x78], False), []),
+            (0x00E5, struct.pack("<HHHHH", 1, 0, 1, 0, 1), []),
+            (0x00EC, bytes(5), [bytes([1, 2]), bytes([3])])]},
+        {"k": "bool", "r": 1, "c": 0, "v": False},
+        {"k": "sub", "bof": b"", "recs": []},
+        {"k": "sub", "bof": xlsgen.bof_body(0x0020), "recs": [(0x0205, struct.pack("<HHHBB", 1, 0, 0, 1, 0), [])]},
+        {"k": "rk", "r": 2, "c": 0, "rk": rk_int(3)}]),
 ]
 
 
